@@ -41,3 +41,12 @@ package utils
 //@   ensures [file-hook/last]   err == nil && !f.IsDir() && IsHook(f) ==> paths[len(paths)-1] == path
 //@   ensures [file-hook/prefix] err == nil && !f.IsDir() && IsHook(f) ==> forall(j, 0, old(len(paths)), paths[j] == old(paths)[j])
 //@   ensures [file-skip]     err == nil && !f.IsDir() && !IsHook(f) ==> result == nil && sameseq(paths, old(paths))
+
+// The walk itself (filepath.Walk protocol) is not modelled: discovery returns a fresh slice;
+// ghost lastDiscovered = number of discovered paths.
+//@ ghost lastDiscovered int
+//@ trusted func RecursiveGetExecutablePaths
+//@   modifies lastDiscovered
+//@   ensures result1 == nil ==> fresh(result0) && lastDiscovered == len(result0)
+//@ trusted func RecursiveCheckLibDirectory
+//@   modifies nothing
